@@ -162,6 +162,7 @@ func runC06(c *kit.Ctx) {
 	}
 
 	moreResultsFirst(c)
+	errorCarriesAssembledRow(c)
 
 	// ---- R3 ---------------------------------------------------------------
 	c.StartRule("R3", "open/continue request provenance", 3)
